@@ -332,6 +332,40 @@ Section HasToLog.
     end.
 End HasToLog.
 
+(* ------------------------------------------------------------------ *)
+(* What hasToLog reads of a full message.  The duplicate key is
+   msg.toString(verbose, templateFormat, templateLocation): the head line from the
+   LAST frame and, when the call stack has at least two frames and the location
+   template is not empty, one more line per frame (the note trail).  Rendered here
+   for the fixed pair of templates the correspondence harness sets:
+     templateFormat   = "{file}:{line}:{column}:{id}:{message}"
+     templateLocation = "{file}:{line}:{column}:{info}"
+   (field contents without '{': findAndReplace is then plain substitution).
+   The suppression view is SuppressionList::ErrorMessage::fromErrorMessage(msg, {}). *)
+Definition COLON : N := 58.
+
+Definition render_pos (l : loc) : str :=
+  l_file l ++ COLON :: dec_of_Z (l_line l) ++ COLON :: dec_of_N (l_col l).
+
+Definition render_note (short : str) (l : loc) : str :=
+  10 :: render_pos l ++ COLON :: (if is_nil (l_info l) then short else l_info l).
+
+Definition NOFILE_POS : str := [110;111;102;105;108;101;58;48;58;48].   (* "nofile:0:0" *)
+
+Definition render (verbose : bool) (m : msg) : str :=
+  (match rev (m_stack m) with l :: _ => render_pos l | [] => NOFILE_POS end)
+  ++ COLON :: m_id m ++ COLON :: (if verbose then m_verbose m else m_short m)
+  ++ (if 2 <=? len_of (m_stack m) then flat_map (render_note (m_short m)) (m_stack m) else []).
+
+Definition emsg_of_msg (m : msg) : emsg :=
+  match rev (m_stack m) with
+  | l :: _ => mkEmsg (m_hash m) (m_id m) (l_file l) (l_line l) (m_symbols m) []
+  | [] => mkEmsg (m_hash m) (m_id m) (m_file0 m) NO_LINE (m_symbols m) []
+  end.
+
+Definition pmsg_of_msg (verbose : bool) (m : msg) : pmsg :=
+  mkP (emsg_of_msg m) (render verbose m) (m_sev m =? sev_internal).
+
 (* SuppressionList::updateSuppressionState / the parent's merge of a child's
    REPORT_SUPPR record: join the flags into the entry with the same parameters *)
 Definition same_params (a b : supp) : bool :=
